@@ -105,6 +105,27 @@ theorem moveAlong_tied (cons : Spec.Cons ℝ) (xmin : ℝ) : ∀ (pl : PList ℝ
           subst h
           exact Tied.cons' (setValue_tied_np hT.head hs) (ih xs (r', xs') hT.tail hr')
 
+theorem setAll_tied (cons : Spec.Cons ℝ) : ∀ (pl : PList ℝ) (vs : List ℝ) (pl' : PList ℝ),
+    Tied cons pl → setAll pl vs = .ok pl' → Tied cons pl' := by
+  intro pl
+  induction pl with
+  | nil => intro vs pl' _ h; rw [setAll] at h; simp only [Except.ok.injEq] at h; subst h; exact Tied.nil cons
+  | cons q rest ih =>
+    intro vs pl' hT h
+    cases vs with
+    | nil => rw [setAll] at h; simp only [Except.ok.injEq] at h; subst h; exact hT
+    | cons v vs =>
+      rw [setAll] at h
+      split at h
+      · cases h
+      · rename_i p' hs
+        split at h
+        · cases h
+        · rename_i r' hr'
+          simp only [Except.ok.injEq] at h
+          subst h
+          exact Tied.cons' (setValue_tied_np hT.head hs) (ih vs r' hT.tail hr')
+
 /-- `ptt` of Powell's extrapolation is a copy of the optimiser's list moved by `setValue` -/
 theorem powellExtrapolate_tied (cons : Spec.Cons ℝ) : ∀ (pl pt : PList ℝ) (r : PList ℝ × List ℝ × PList ℝ),
     Tied cons pl → powellExtrapolate pl pt = .ok r → Tied cons r.1 := by
@@ -561,7 +582,14 @@ theorem bfgsDoStep_safe {cons : Spec.Cons ℝ} (hs : Safe I Q (Tied cons)) (hss 
       have hQ2 := hs.f_ok _ _ _ _ h1.1 h1.2 he2
       try dsimp only
       split
-      · exact ⟨hQ2, h1.2⟩
+      · split
+        · exact hQ2
+        · rename_i pl0 hset
+          have hT0 := setAll_tied cons _ _ _ h1.2 hset
+          try dsimp only
+          split
+          · rename_i e he3; obtain ⟨e1, fn1⟩ := e; exact hs.f_err _ _ _ _ hQ2 hT0 he3
+          · rename_i fn3 f0 he3; exact ⟨hs.f_ok _ _ _ _ hQ2 hT0 he3, hT0⟩
       · split
         · exact ⟨hQ2, h1.2⟩
         · split
